@@ -12,6 +12,14 @@ Families
                  identity token of the layer).
   combo / combor `ComponentIDComboHelper` on a plain `State` (see `ComboWorld`).
   dcombo         `ManualDataComboHelper` / `DataCollectionComboHelper`.
+  vpick          the viewers' own x / y attribute pickers, in situ.
+  kinds          introspection: every `Component` subclass and every `Data.get_kind` value of the
+                 tree under test must be known to the Lean model and produced by the dataset
+                 templates below (`TEMPLATES`); every class x all 128 flag combinations.
+
+Dataset templates (`make_data`): the picker families draw their datasets from `TEMPLATES`, which
+together contain every component class glue has (plain, categorical, datetime, derived, pixel / world
+coordinate, dask, extended = the region column of a `RegionData`).
   axes           `ImageViewerState` axis setters.
 
 Matplotlib rendering (`FigureCanvasAgg.draw`, `draw_idle`) is stubbed out in this process: it is
@@ -69,6 +77,211 @@ RESTORABLE = ('sc', 'im')
 
 
 # ---------------------------------------------------------------------------------------------
+# dataset templates: every component class / kind glue has
+# ---------------------------------------------------------------------------------------------
+
+import ast  # noqa: E402
+import inspect  # noqa: E402
+import textwrap  # noqa: E402
+
+import glue.core.component as _gcc  # noqa: E402
+import glue.core.data_region as _gdr  # noqa: E402
+from glue.core.component import (Component, CoordinateComponent, DaskComponent,  # noqa: E402
+                                 ExtendedComponent)
+from glue.core.data_region import RegionData  # noqa: E402
+from glue.core.coordinates import IdentityCoordinates, AffineCoordinates  # noqa: E402
+
+_SHARED = {}
+
+
+def _geoms():
+    if 'geoms' not in _SHARED:
+        from shapely.geometry import Polygon
+        _SHARED['geoms'] = np.array([Polygon([(0, 0), (1, 0), (1, 1)]), Polygon([(2, 2), (3, 2), (3, 3)]),
+                                     Polygon([(4, 4), (5, 4), (5, 5)])])
+    return _SHARED['geoms']
+
+
+def _dask():
+    if 'dask' not in _SHARED:
+        import dask.array as da
+        _SHARED['dask'] = da.from_array(np.arange(3.))
+    return _SHARED['dask']
+
+
+# name -> number of component ids (pixel + world + main + derived); the Lean side of each template is
+# `tmplOf?` in lean/Drivers/C18.lean
+TEMPLATES = {'std': 5, 'reg': 5, 'ext1': 3, 'dask': 3, 'drv': 6, 'bare': 3}
+TMPLS = list(TEMPLATES)
+
+
+def make_data(tmpl, i, label=None):
+    lbl = label or 'd%i' % i
+    if tmpl == 'std':     # CategoricalComponent, DateTimeComponent, Component, pixel + world CoordinateComponent
+        return Data(c=np.array(['a', 'b', 'c']),
+                    t=np.array(['2020-01-01', '2020-01-02', '2020-01-03'], dtype='datetime64[D]'),
+                    x=[1., 2., 3.], coords=IdentityCoordinates(n_dim=1), label=lbl)
+    if tmpl == 'reg':     # RegionData: flux, the two centre columns, the ExtendedComponent
+        return RegionData(label=lbl, regions=_geoms(), flux=np.array([1., 2., 3.]) + i)
+    if tmpl == 'ext1':    # a plain Data carrying an ExtendedComponent
+        d = Data(x=[1., 2., 3.], label=lbl)
+        d.add_component(ExtendedComponent(_geoms(), center_comp_ids=[d.id['x']]), 'e')
+        return d
+    if tmpl == 'dask':    # CategoricalComponent + DaskComponent
+        d = Data(s=np.array(['a', 'b', 'c']), label=lbl)
+        d.add_component(DaskComponent(_dask()), 'k')
+        return d
+    if tmpl == 'drv':     # 2-d, affine coordinates, a DerivedComponent
+        d = Data(x=np.arange(6.).reshape(2, 3) + i, label=lbl,
+                 coords=AffineCoordinates(np.array([[2., 0., 1.], [0., 1., 0.], [0., 0., 1.]])))
+        d['v'] = d.pixel_component_ids[0] + 1
+        return d
+    if tmpl == 'bare':    # 2-d, no coordinates (the viewer families' standard dataset)
+        return Data(x=np.arange(6.).reshape(2, 3) + i, label=lbl)
+    raise ValueError(tmpl)
+
+
+def tmpl_list(n, default):
+    """a case names its datasets by a number (n default templates) or a list of template names"""
+    return [default] * n if isinstance(n, int) else list(n)
+
+
+def data_cids(d):
+    """the component ids of a dataset in the numbering order of the model: pixel, world, main,
+    derived (owned by the dataset)"""
+    return (list(d.pixel_component_ids) + list(d.world_component_ids) + list(d.main_components) +
+            [c for c in d.derived_components if c.parent is d])
+
+
+def _class_atom(comp):
+    n = type(comp).__name__
+    if isinstance(comp, CoordinateComponent):
+        n += 'World' if comp.world else 'Pixel'
+    return n
+
+
+def component_classes():
+    """every Component subclass that exists in the process (all of glue.core and the viewers are
+    imported by now), CoordinateComponent split into its pixel / world flavours"""
+    assert _gcc.Component is Component and _gdr.RegionData is RegionData
+    seen, stack = [], [Component]
+    while stack:
+        c = stack.pop()
+        if c not in seen:
+            seen.append(c)
+            stack.extend(c.__subclasses__())
+    out = set()
+    for c in seen:
+        if c is CoordinateComponent:
+            out.update([c.__name__ + 'Pixel', c.__name__ + 'World'])
+        else:
+            out.add(c.__name__)
+    return sorted(out)
+
+
+def get_kind_values():
+    """the strings `Data.get_kind` (and overrides in subclasses of Data) can return, read off the
+    source; a return that is not a string literal is reported as `dynamic`"""
+    out = set()
+    seen, stack = [], [Data]
+    while stack:
+        c = stack.pop()
+        if c not in seen:
+            seen.append(c)
+            stack.extend(c.__subclasses__())
+    for c in seen:
+        f = c.__dict__.get('get_kind')
+        if f is None:
+            continue
+        tree = ast.parse(textwrap.dedent(inspect.getsource(f)))
+        for node in ast.walk(tree):
+            if isinstance(node, ast.Return) and node.value is not None:
+                if isinstance(node.value, ast.Constant) and isinstance(node.value.value, str):
+                    out.add(node.value.value)
+                else:
+                    out.add('dynamic')
+    return out
+
+
+def _kind_atom(k):
+    return KIND_ATOM.get(k, 'unknown-' + ''.join(ch if ch.isalnum() else '-' for ch in str(k)))
+
+
+AC_KINDS = ('num', 'cat', 'dt', 'ext', 'dask')
+
+
+def _generator_components():
+    """(class atom, kind) of every component the generators can put into a dataset: the templates +
+    every `ac` op on a `std` dataset"""
+    out = []
+    ds = [make_data(t, i) for i, t in enumerate(TMPLS)]
+    extra = make_data('std', 9)
+    for k in AC_KINDS:
+        extra.add_component(_values(k, 0, extra), 'n' + k)
+    extra['v'] = extra.pixel_component_ids[0] + 1
+    for d in ds + [extra]:
+        for cid in list(d.component_ids()):
+            out.append((_class_atom(d.get_component(cid)), d.get_kind(cid)))
+    return out
+
+
+def _run_kinds(case):
+    gc.disable()
+    if case[0] == 'enum':
+        made = _generator_components()
+        produced = {c for c, _ in made}
+        kinds = get_kind_values() | {k for _, k in made}
+        return [['classes'] + [[c, c in produced] for c in component_classes()],
+                ['kinds'] + sorted(_kind_atom(k) for k in kinds)]
+    flags = dict(zip(FLAG_NAMES, case[1]))
+    ds = [make_data(t, i) for i, t in enumerate(TMPLS)]
+    dc = DataCollection(ds)
+    st = ExState()
+    if case[2] == 'init':    # the way viewers' layer states build their pickers
+        h = ComponentIDComboHelper(st, 'combo0', dc, **{FLAG_ATTR[f]: b for f, b in flags.items()})
+        h.set_multiple_data(ds)
+    else:
+        h = ComponentIDComboHelper(st, 'combo0', dc)
+        h.set_multiple_data(ds)
+        for f in FLAG_NAMES:
+            setattr(h, FLAG_ATTR[f], flags[f])
+    offered = {id(c) for c in h.choices if c is not None and not isinstance(c, ChoiceSeparator)}
+    rows = {}
+    for d in ds:
+        for cid in list(d.component_ids()):
+            rows.setdefault(_class_atom(d.get_component(cid)), []).append(id(cid) in offered)
+    return [[c, True if all(v) else (False if not any(v) else 'X')] for c, v in sorted(rows.items())]
+
+
+class Kinds(Family):
+    """no component class / kind escapes the model and the generators; classes x flags"""
+    name = "kinds"
+    exhaustive = True
+    batch = 40
+    budget_share = 0.2
+
+    def setup(self):
+        _gc_setup()
+
+    def reset(self):
+        Registry().clear()
+
+    def cases(self, tier, rng):
+        yield ['enum']
+        for k, combo in enumerate(itertools.product([True, False], repeat=7)):
+            yield ['flags', list(combo), 'init' if k % 2 else 'set']
+
+    def run_impl(self, case):
+        return _run_kinds(case)
+
+    def line(self, case, pyout):
+        return sx(["kinds", case[:2], pyout])
+
+    def signature(self, case, po, res):
+        return {"construct": "kinds"}
+
+
+# ---------------------------------------------------------------------------------------------
 # viewer family
 # ---------------------------------------------------------------------------------------------
 
@@ -93,7 +306,8 @@ class ViewWorld:
     def __init__(self, n, cls):
         self.keep = []
         self.cls = cls
-        self.data = [Data(x=np.arange(6.).reshape(2, 3) + i, label='d%i' % i) for i in range(n)]
+        self.tmpls = tmpl_list(n, 'bare')
+        self.data = [make_data(t, i) for i, t in enumerate(self.tmpls)]
         self.did = {id(d): i for i, d in enumerate(self.data)}
         self.groups = []
         self.gid = {}
@@ -208,6 +422,11 @@ class ViewWorld:
                         break
         elif k == 'rst':
             self.restore()
+        elif k == 'vfl':
+            hs = VP_HELPERS.get(self.cls, [])
+            if op[1] < len(hs):
+                setattr(getattr(v.state, hs[op[1]][0]), FLAG_ATTR[op[2]], bool(op[3]))
+                self.restored = True   # a viewer whose helpers were reconfigured is never pooled
         else:
             raise ValueError(op)
 
@@ -245,7 +464,7 @@ class ViewWorld:
         in_new = {id(d) for d in new_dc.data}
         for i, d in enumerate(self.data):
             if id(d) not in in_new:
-                nd = Data(x=np.arange(6.).reshape(2, 3) + i, label=d.label)
+                nd = make_data(self.tmpls[i], i, d.label)
                 self.data[i] = nd
                 self.did[id(nd)] = i
                 self.keep.append(nd)
@@ -299,27 +518,40 @@ class ViewWorld:
 
 
 ND, NG = 2, 2
+VIEW_TMPLS = ['bare', 'reg', 'std', 'ext1', 'drv', 'dask']
+
+
+def _savable(tmpls, ops):
+    """a session with a DaskComponent cannot be saved (GlueSerializeError, by design: the dask array
+    is not serialisable): histories with a restore do not get the `dask` template"""
+    if any(o[0] == 'rst' for o in ops):
+        return ['std' if t == 'dask' else t for t in tmpls]
+    return tmpls
 
 VP_HELPERS = {'sc': [('x_att_helper', 'x_att'), ('y_att_helper', 'y_att')], 'hi': [('x_att_helper', 'x_att')]}
+VP_FLAG_DEFAULT = {'numeric': True, 'datetime': True, 'categorical': True, 'pixel': True, 'world': True,
+                   'derived': True, 'none': False}
+VPT_ALPHA = [['vad', 0], ['vad', 1], ['vrd', 0], ['rem', 1], ['ng'], ['vfl', 0, 'numeric', False],
+             ['vfl', 1, 'pixel', False]]
 
 
 def _picker_snaps(w):
     """the attribute pickers of the viewer state, in the snapshot format of family `combo`;
-    component ids: dataset i owns 3i (`x`), 3i+1, 3i+2 (pixel axes)"""
+    component ids: numbered dataset after dataset in the order pixel, world, main, derived (for the
+    standard 2-d dataset: 3i, 3i+1 pixel axes, 3i+2 `x`)"""
     serial = {}
-    for i, d in enumerate(w.data):
-        ids = list(d.main_components) + list(d.pixel_component_ids)
-        for k, c in enumerate(ids):
-            serial[id(c)] = 3 * i + k
+    for d in w.data:
+        for c in data_cids(d):
+            serial[id(c)] = len(serial)
     st = w.viewer.state
     out = []
     for hname, prop in VP_HELPERS[w.cls]:
         h = getattr(st, hname)
-        F = ['F'] + [bool(getattr(h, FLAG_ATTR[f])) for f in ('numeric', 'datetime', 'categorical', 'pixel', 'world', 'derived', 'none')]
+        F = ['F'] + [bool(getattr(h, FLAG_ATTR[f])) for f in FLAG_NAMES]
         H = ['H']
         for d in h._data:
             H.append([w._d(d),
-                      ['m'] + [[serial.get(id(c), 'X'), KIND_ATOM[d.get_kind(c)]] for c in d.main_components],
+                      ['m'] + [[serial.get(id(c), 'X'), _kind_atom(d.get_kind(c))] for c in d.main_components],
                       ['dv'] + [serial.get(id(c), 'X') for c in d.derived_components if c.parent is d],
                       ['p'] + [serial.get(id(c), 'X') for c in d.pixel_component_ids],
                       ['w'] + [serial.get(id(c), 'X') for c in d.world_component_ids]])
@@ -584,7 +816,13 @@ class ViewRandom(View):
             cls = keys[i % 4]
             nd = rng.choice([2, 3])
             length = rng.randint(4, 15) if tier == "quick" else rng.randint(4, 40)
-            yield [nd, nc, cls, random_view_seq(rng, length, nd, cls)]
+            ops = random_view_seq(rng, length, nd, cls)
+            # half of the scatter / histogram histories on datasets drawn from the templates (region
+            # data, dask, derived, ... as layers); image / profile viewers need n-d arrays
+            if cls in ('sc', 'hi') and (i // 4) % 2:
+                yield [_savable([rng.choice(VIEW_TMPLS) for _ in range(nd)], ops), nc, cls, ops]
+            else:
+                yield [nd, nc, cls, ops]
 
 
 class VPick(View):
@@ -608,9 +846,38 @@ class VPick(View):
                 if _valid_view(ops) and _canonical_view(ops):
                     yield [ND, nc, 'sc' if x[0] == 'rst' else ('sc', 'hi')[k % 2], ops]
                     k += 1
+        # datasets of every component class as layers: every sequence of 2 (thorough 4) ops over a small
+        # alphabet with flag flips after both datasets are layers / in the collection only, template
+        # pair and viewer class rotating
+        for seq in itertools.product(VPT_ALPHA, repeat=2 if tier == "quick" else 4):
+            ops = [['app', 0], ['app', 1], ['vad', 1], ['vad', 0]] + [list(o) for o in seq]
+            yield [list(TMPL_PAIRS[k % len(TMPL_PAIRS)]), nc, ('sc', 'hi')[(k // len(TMPL_PAIRS)) % 2], ops]
+            k += 1
+        for seq in itertools.product(VPT_ALPHA, repeat=2 if tier == "quick" else 4):
+            ops = [['app', 0], ['app', 1]] + [list(o) for o in seq]
+            yield [list(TMPL_PAIRS[k % len(TMPL_PAIRS)]), nc, ('sc', 'hi')[(k // len(TMPL_PAIRS)) % 2], ops]
+            k += 1
+        # ... under every flag combination: the three kind flags set, then a walk through all 16
+        # combinations of the other four, for every picker and every template pair
+        walk = gray_walk(['pixel', 'world', 'derived', 'none'])
+        for pair in TMPL_PAIRS:
+            for cls, p in (('sc', 0), ('sc', 1), ('hi', 0)):
+                for kinds in itertools.product([True, False], repeat=3):
+                    cur = dict(VP_FLAG_DEFAULT)
+                    ops = [['app', 0], ['app', 1], ['vad', 0], ['vad', 1]]
+                    ops += [['vfl', p, f, b] for f, b in zip(('numeric', 'datetime', 'categorical'), kinds) if not b]
+                    for f in walk:
+                        cur[f] = not cur[f]
+                        ops.append(['vfl', p, f, cur[f]])
+                    yield [list(pair), nc, cls, ops]
         for i in range(150 if tier == "quick" else 6000):
             cls = ('sc', 'hi')[i % 2]
-            yield [3, nc, cls, random_view_seq(rng, rng.randint(4, 12), 3, cls)]
+            ops = random_view_seq(rng, rng.randint(4, 12), 3, cls)
+            tm = 3 if i % 3 == 0 else _savable([rng.choice(TMPLS) for _ in range(3)], ops)
+            if i % 3 == 2:
+                for _ in range(rng.randint(1, 4)):
+                    ops.insert(rng.randint(0, len(ops)), ['vfl', rng.randrange(2), rng.choice(FLAG_NAMES), rng.random() < 0.5])
+            yield [tm, nc, cls, ops]
 
 
 for _cls in (View, ViewRandom):
@@ -631,7 +898,6 @@ from echo import SelectionCallbackProperty  # noqa: E402
 from echo.selection import ChoiceSeparator  # noqa: E402
 from glue.core.state_objects import State  # noqa: E402
 from glue.core.component_id import ComponentID  # noqa: E402
-from glue.core.coordinates import IdentityCoordinates, AffineCoordinates  # noqa: E402
 from glue.core.data_combo_helper import (ComponentIDComboHelper, ManualDataComboHelper,  # noqa: E402
                                          DataCollectionComboHelper)
 from glue.viewers.image.state import ImageViewerState, ImageLayerState  # noqa: E402
@@ -650,24 +916,39 @@ KIND_ATOM = {'numerical': 'num', 'categorical': 'cat', 'datetime': 'dt', 'extend
 FLAG_ATTR = {'numeric': 'numeric', 'datetime': 'datetime', 'categorical': 'categorical',
              'pixel': 'pixel_coord', 'world': 'world_coord', 'derived': 'derived', 'none': 'none'}
 SEP = {'Main components': 'sm', 'Derived components': 'sdv', 'Coordinate components': 'sc'}
+FLAG_NAMES = ('numeric', 'datetime', 'categorical', 'pixel', 'world', 'derived', 'none')
+FLAG_DEFAULT = {'numeric': True, 'datetime': True, 'categorical': True, 'pixel': False, 'world': False,
+                'derived': True, 'none': False}
 
 
-def _values(kind, k):
+# `ac d ext` is not generated for a RegionData (it refuses a second ExtendedComponent by design:
+# ValueError) nor for the 2-d templates (the three polygons do not have their shape)
+AC_INVALID = {'ext': ('reg', 'drv', 'bare')}
+
+
+def _values(kind, k, d=None):
+    shape = (3,) if d is None else d.shape
     if kind == 'num':
-        return np.array([1., 2., 3.]) + k
+        return np.resize(np.array([1., 2., 3.]) + k, shape)
     if kind == 'cat':
-        return np.array(['u', 'v', 'w'])
-    return np.array(['2021-01-01', '2021-01-02', '2021-01-03'], dtype='datetime64[D]')
+        return np.resize(np.array(['u', 'v', 'w']), shape)
+    if kind == 'ext':
+        return ExtendedComponent(_geoms(), center_comp_ids=[d.pixel_component_ids[0]])
+    if kind == 'dask':
+        if shape == (3,):
+            return DaskComponent(_dask())
+        import dask.array as da
+        return DaskComponent(da.from_array(np.zeros(shape)))
+    return np.resize(np.array(['2021-01-01', '2021-01-02', '2021-01-03'], dtype='datetime64[D]'), shape)
 
 
 class ComboWorld:
     def __init__(self, n, idx):
-        self.data = [Data(c=np.array(['a', 'b', 'c']),
-                          t=np.array(['2020-01-01', '2020-01-02', '2020-01-03'], dtype='datetime64[D]'),
-                          x=[1., 2., 3.], coords=IdentityCoordinates(n_dim=1), label='d%i' % i) for i in range(n)]
+        self.tmpls = tmpl_list(n, 'std')
+        self.data = [make_data(t, i) for i, t in enumerate(self.tmpls)]
         self.cids = []
         for d in self.data:
-            self.cids += [d.pixel_component_ids[0], d.world_component_ids[0]] + list(d.main_components)
+            self.cids += data_cids(d)
         self.serial = {id(c): k for k, c in enumerate(self.cids)}
         self.dc = DataCollection(self.data)
         self.state = ExState()
@@ -692,12 +973,20 @@ class ComboWorld:
             return
         if k == 'ac':
             d = self.data[op[1]]
-            cid = d.add_component(_values(op[2], len(self.cids)), 'n%i' % len(self.cids))
+            cid = d.add_component(_values(op[2], len(self.cids), d), 'n%i' % len(self.cids))
             self._reg(cid)
         elif k == 'ad':
             d = self.data[op[1]]
             lbl = 'v%i' % len(self.cids)
-            d[lbl] = d.pixel_component_ids[0] + 1
+            try:
+                d[lbl] = d.pixel_component_ids[0] + 1
+            except TypeError:
+                # without fix C18d `RegionData.add_component` (hence `__setitem__`) cannot take a
+                # ComponentLink: it iterates over it looking for shapely geometries.  Not a picker
+                # matter: the derived component is then added through `add_component_link`
+                if not isinstance(d, RegionData):
+                    raise
+                d.add_component_link(d.pixel_component_ids[0] + 1, lbl)
             self._reg(d.id[lbl])
         elif k == 'rc':
             d = self.data[op[1]]
@@ -774,12 +1063,12 @@ class ComboWorld:
 
     def snapshot(self):
         h = self.helper
-        F = ['F'] + [bool(getattr(h, FLAG_ATTR[f])) for f in ('numeric', 'datetime', 'categorical', 'pixel', 'world', 'derived', 'none')]
+        F = ['F'] + [bool(getattr(h, FLAG_ATTR[f])) for f in FLAG_NAMES]
         H = ['H']
         for d in h._data:
-            i = self.data.index(d) if any(d is x for x in self.data) else 'X'
+            i = ([k for k, x in enumerate(self.data) if x is d] + ['X'])[0]
             H.append([i,
-                      ['m'] + [[self._c(c), KIND_ATOM[d.get_kind(c)]] for c in d.main_components],
+                      ['m'] + [[self._c(c), _kind_atom(d.get_kind(c))] for c in d.main_components],
                       ['dv'] + [self._c(c) for c in d.derived_components if c.parent is d],
                       ['p'] + [self._c(c) for c in d.pixel_component_ids],
                       ['w'] + [self._c(c) for c in d.world_component_ids]])
@@ -807,7 +1096,7 @@ def _run_combo(case):
 CD = 2  # datasets in the combo world
 # initial ids: dataset i owns 5i (pixel) 5i+1 (world) 5i+2 (c) 5i+3 (t) 5i+4 (x); new ones from 5*CD
 COMBO_ALPHA = ([['ha', 0], ['ha', 1], ['hr', 0], ['hm', 1, 0], ['hm'],
-                ['ac', 0, 'num'], ['ac', 0, 'cat'], ['ac', 1, 'dt'], ['ad', 0], ['rc', 0, 0], ['rc', 0, 2], ['rc', 0, 3],
+                ['ac', 0, 'num'], ['ac', 0, 'cat'], ['ac', 1, 'dt'], ['ac', 0, 'ext'], ['ac', 1, 'dask'], ['ad', 0], ['rc', 0, 0], ['rc', 0, 2], ['rc', 0, 3],
                 ['rn', 0, 0], ['ro', 0], ['rp', 0, 0], ['dr', 0], ['da', 0], ['do'], ['dc']] +
                [['fl', f, b] for f in ('numeric', 'categorical', 'pixel', 'world', 'derived', 'none') for b in (True, False)] +
                [['fl', 'datetime', False]] +
@@ -815,9 +1104,15 @@ COMBO_ALPHA = ([['ha', 0], ['ha', 1], ['hr', 0], ['hm', 1, 0], ['hm'],
 
 
 COMBO_CORE = [o for o in COMBO_ALPHA if o not in (
-    [['hm'], ['ac', 0, 'cat'], ['ac', 1, 'dt'], ['rc', 0, 3], ['da', 0], ['fl', 'categorical', True],
+    [['hm'], ['ac', 0, 'cat'], ['ac', 1, 'dt'], ['ac', 0, 'ext'], ['ac', 1, 'dask'], ['rc', 0, 3], ['da', 0], ['fl', 'categorical', True],
      ['fl', 'numeric', True], ['fl', 'derived', True], ['fl', 'datetime', False], ['sel', 1], ['sel', 10],
      ['hm', 1, 0], ['rn', 0, 0], ['fl', 'world', False]])]
+
+
+# the core alphabet on the non-standard templates: plus an extended / dask component
+COMBO_TCORE = COMBO_CORE + [['ac', 0, 'ext'], ['ac', 0, 'dask']]
+TMPL_PAIRS = [('reg', 'std'), ('std', 'reg'), ('ext1', 'drv'), ('dask', 'reg'), ('bare', 'ext1'), ('drv', 'dask')]
+FLAG_COMBOS = list(itertools.product([True, False], repeat=7))
 
 
 COMBO_SMALL = [['hr', 0], ['ha', 0], ['ac', 0, 'num'], ['ad', 0], ['rc', 0, 0], ['rc', 0, 2], ['ro', 0], ['rp', 0, 0],
@@ -836,33 +1131,53 @@ def combo_n(ops):
     return m + 1
 
 
-def combo_valid(ops):
+def combo_valid(ops, tmpls=None):
     """the client clears the selection only while `None` is on offer (none flag on); delay blocks
-    are balanced or left open at most 2 deep"""
+    are balanced or left open at most 2 deep; no `ac d ext` on a dataset that cannot take it"""
     none = False
     for op in ops:
         if op[0] == 'fl' and op[1] == 'none':
             none = bool(op[2])
         if op[0] == 'sel' and op[1] is None and not none:
             return False
+        if op[0] == 'ac' and tmpls is not None and not isinstance(tmpls, int) and op[1] < len(tmpls) \
+                and tmpls[op[1]] in AC_INVALID.get(op[2], ()):
+            return False
     return True
 
 
-def random_combo_seq(rng, length):
+def flag_ops(combo, order=FLAG_NAMES):
+    """the `fl` ops that take a helper from its default flags to `combo` (7 booleans)"""
+    want = dict(zip(FLAG_NAMES, combo))
+    return [['fl', f, want[f]] for f in order if want[f] != FLAG_DEFAULT[f]]
+
+
+def gray_walk(names):
+    """flip sequence visiting all 2^len(names) combinations of the named flags once"""
+    n = len(names)
+    return [names[((i & -i).bit_length() - 1)] for i in range(1, 2 ** n)]
+
+
+def random_combo_seq(rng, length, tmpls=None):
     ops = []
     none = False
-    ncid = 5 * CD
+    tmpls = tmpls or ['std'] * CD
+    CD_ = len(tmpls)
+    ncid = sum(TEMPLATES[t] for t in tmpls)
     while len(ops) < length:
         r = rng.random()
-        d = rng.randrange(CD)
+        d = rng.randrange(CD_)
         if r < 0.12:
             op = ['ha', d]
         elif r < 0.17:
             op = ['hr', d]
         elif r < 0.21:
-            op = ['hm'] + [rng.randrange(CD) for _ in range(rng.randint(0, 3))]
+            op = ['hm'] + [rng.randrange(CD_) for _ in range(rng.randint(0, 3))]
         elif r < 0.30:
-            op = ['ac', d, rng.choice(['num', 'cat', 'dt'])]
+            kind = rng.choice(AC_KINDS)
+            if tmpls[d] in AC_INVALID.get(kind, ()):
+                continue
+            op = ['ac', d, kind]
             ncid += 1
         elif r < 0.35:
             op = ['ad', d]
@@ -932,6 +1247,35 @@ class Combo(Family):
             yield [CD, idx, [['ha', 0], ['sel', 4], ['do'], ['rc', 0, 2], ['do'], ['dc'], ['ac', 0, 'num'], ['dc']]]
             yield [CD, idx, [['ha', 0], ['ha', 1], ['sel', 7], ['do'], ['dr', 1], ['dc']]]
             yield [CD, idx, [['ha', 0], ['fl', 'none', True], ['sel', None], ['fl', 'none', False], ['rp', 0, 0]]]
+        # component kinds x flags: every dataset template (together: every component class glue has)
+        # under every one of the 128 flag combinations, flags set before / after the helper gets the
+        # dataset, in both orders; pairs of templates; an extended and a dask component added and
+        # moved to the front under every combination
+        for t in TMPLS:
+            for j, combo in enumerate(FLAG_COMBOS):
+                fo = flag_ops(combo, FLAG_NAMES if j % 2 else tuple(reversed(FLAG_NAMES)))
+                yield [[t], idxs[k % 5], ([['ha', 0]] + fo) if (j // 2) % 2 else (fo + [['ha', 0]])]
+                k += 1
+        for pair in TMPL_PAIRS:
+            for j, combo in enumerate(FLAG_COMBOS):
+                fo = flag_ops(combo)
+                yield [list(pair), idxs[k % 5], ([['hm', 0, 1]] + fo) if j % 2 else (fo + [['ha', 1], ['ha', 0]])]
+                k += 1
+        for j, combo in enumerate(FLAG_COMBOS):
+            t = ('std', 'ext1', 'dask')[j % 3]
+            yield [[t], idxs[k % 5], [['ha', 0]] + flag_ops(combo) + [['ac', 0, 'ext'], ['ro', 0], ['ac', 0, 'dask']]]
+            k += 1
+        # histories over the core alphabet on the templates with an extended / dask component (dataset 1:
+        # the next template; thorough: on every non-standard template)
+        for i, t in enumerate(TMPLS):
+            if t == 'std' or (tier == "quick" and t in ('drv', 'bare')):
+                continue
+            tm = [t, TMPLS[(i + 1) % len(TMPLS)]]
+            for seq in itertools.product(COMBO_TCORE, repeat=2 if tier == "quick" else 3):
+                ops = [['ha', 0]] + [list(o) for o in seq]
+                if combo_valid(ops, tm):
+                    yield [tm[:combo_n(ops)], idxs[k % 5], ops]
+                    k += 1
         # every sequence of L ops over the core alphabet after `ha 0`; every sequence of L-1 ops over
         # the full alphabet after each of three prefixes
         if tier == "quick":
@@ -957,7 +1301,7 @@ class Combo(Family):
         return any(op[0] in ('ha', 'hm') for op in case[2]) and any(op[0] in ('ac', 'ad', 'rc', 'ro', 'rp', 'fl', 'dr') for op in case[2])
 
     def shrink(self, case):
-        return _shrink_ops([case[0], case[1]], case[2], combo_valid)
+        return _shrink_ops([case[0], case[1]], case[2], lambda ops: combo_valid(ops, case[0]))
 
     def signature(self, case, po, res):
         return {"construct": "combo"}
@@ -972,14 +1316,19 @@ class ComboRandom(Combo):
     def cases(self, tier, rng):
         n = 3000 if tier == "quick" else 60000
         for i in range(n):
-            yield [CD, [0, 1, -1, -2, 5][i % 5], random_combo_seq(rng, rng.randint(4, 15 if tier == "quick" else 40))]
+            # a third of the histories on the standard datasets, the rest on random templates
+            tm = ['std'] * CD if i % 3 == 0 else [rng.choice(TMPLS) for _ in range(CD)]
+            yield [tm, [0, 1, -1, -2, 5][i % 5], random_combo_seq(rng, rng.randint(4, 15 if tier == "quick" else 40), tm)]
 
 
 # ---- dataset pickers ------------------------------------------------------------------------
 
 class DComboWorld:
     def __init__(self, n, auto, idx, in_dc):
-        self.data = [Data(x=[1., 2., 3.], label='d%i' % i) for i in range(n)]
+        if isinstance(n, int):
+            self.data = [Data(x=[1., 2., 3.], label='d%i' % i) for i in range(n)]
+        else:
+            self.data = [make_data(t, i) for i, t in enumerate(n)]
         self.dc = DataCollection([self.data[d] for d in in_dc])
         self.state = ExState()
         self.prop = PROP_BY_IDX[idx]
@@ -1099,7 +1448,11 @@ class DCombo(Family):
             for seq in itertools.product(alpha, repeat=n):
                 ops = [list(o) for o in seq]
                 nd = 1 + max([1 if in_dc else 0] + [max(o[1:]) for o in ops if o[0] in ('da', 'dr', 'ha', 'hr', 'hm', 'rl')])
-                yield [nd, auto, idxs[k % 4], in_dc, ops]
+                # every fourth case: datasets from the templates (all component classes), rotating
+                if k % 4 == 0:
+                    yield [[TMPLS[(k // 4 + j) % len(TMPLS)] for j in range(nd)], auto, idxs[k % 4], in_dc, ops]
+                else:
+                    yield [nd, auto, idxs[k % 4], in_dc, ops]
                 k += 1
 
     def run_impl(self, case):
@@ -1400,12 +1753,13 @@ PROP = Property(
     title="Viewers and attribute pickers mirror the collection",
     theorems=["C18.viewer_inv_init", "C18.viewer_step_inv", "C18.viewer_reachable_inv", "C18.viewer_reachable_spec",
               "C18.viewer_mirrors_collection", "C18.viewer_layers_plain", "C18.restore_layers",
-              "C18.refresh_sound_complete", "C18.refresh_order", "C18.refresh_nodup", "C18.refresh_none",
+              "C18.refresh_sound_complete", "C18.kind_filter_whitelist", "C18.unfiltered_kind_never_offered",
+              "C18.class_offered_iff", "C18.kinds_covered", "C18.refresh_order", "C18.refresh_nodup", "C18.refresh_none",
               "C18.selection_valid_after_refresh", "C18.selection_valid", "C18.picker_after_refresh_ok",
               "C18.explicit_none_accepted",
               "C18.combo_history_valid", "C18.dcombo_history_valid",
               "C18.image_axes_distinct", "C18.image_axes_spec", "C18.image_1d_reference_crashes"],
-    families=[Axes(), Combo(), ComboRandom(), DCombo(), VPick(), View(), ViewRandom()],
+    families=[Kinds(), Axes(), Combo(), ComboRandom(), DCombo(), VPick(), View(), ViewRandom()],
     trusted_base=["the `echo` callback-property library (SelectionCallbackProperty._choices_updated / __set__, delay_callback, CallbackList) is modelled (its selection rule) or assumed (callback ordering), validated by the correspondence families",
                   "matplotlib / astropy WCSAxes drawing is stubbed out in the harness process (FigureCanvasAgg.draw, draw_idle): only the layer bookkeeping of the viewers is under test",
                   "GlueSerializer / GlueUnSerializer are exercised for viewer save + restore, their effect on the bookkeeping is modelled (restored objects stand for the saved ones)",
@@ -1415,6 +1769,6 @@ PROP = Property(
                  "x_att / y_att setters are called with pixel axes of the current reference data; explicit selections of None only while None is on offer (echo accepts None unconditionally: theorem explicit_none_accepted)",
                  "snapshots taken while a hub delay block is open are compared with the model but not judged by the Spec (the helper has not been told yet, by design)",
                  "restore is checked for the scatter and image viewers; histogram / profile viewers cannot be restored on this tree (known finding C18c = C12's F12)"],
-    rule="view: one extended viewer op (add_subset / remove_subset / remove_layer / state.layers.remove / restore / second-dataset ops) at every position of every core sequence (append/remove x2 datasets, new group, remove group, add_data x2, remove_data) of length 2 (quick) / 3 (thorough); every core sequence of length 4 / 5; every sequence of length 5 / 7 over a 5-letter one-dataset alphabet; viewer class rotating by case; viewr: seeded random histories of length 4-15 / 4-40 over 2-3 datasets, up to 3 groups, with restores. vpick: the x/y attribute pickers of ScatterViewerState / HistogramViewerState read in situ after every step of every core viewer history of length 3 / 4, one extended op after every core history of length 2 / 3, 150 / 6000 random histories. combo: every sequence of 3 ops over a 25-letter core alphabet after helper.append_data + every pair over the full 39-letter alphabet after three prefixes (thorough: triples over the full alphabet, 4-sequences over 19 letters); combor: random length 4-15 / 4-40. dcombo: every sequence of length 3-4 / 4-5 over 12-15 letters for both helper classes and two initial collections. axes: every setter sequence of length 3 (thorough 4, all three coordinate kinds) on a 3-d and a 2-d reference dataset, every sequence of length 2 (thorough 4) over the full 18-letter alphabet incl. reference-data changes and layers coming and going, samples of the next length. non-trivial = the history touches both sides (e.g. add_data and a collection change).",
+    rule="kinds: introspection of the tree under test - every Component subclass (recursive __subclasses__, CoordinateComponent split pixel / world) must be a constructor of the model's CompClass and occur in one of the generator's datasets, every string Data.get_kind can return (read off its source + measured on the generated components) must be a constructor of the model's Kind; all 128 flag combinations x every component class (flags through the constructor / through the setters, alternating). Dataset templates of the picker families: std (categorical, datetime, numerical, pixel + world coordinate), reg (RegionData: three numerical columns + the extended region column), ext1 (Data + ExtendedComponent), dask (categorical + DaskComponent), drv (2-d, affine coordinates, derived component), bare (2-d, no coordinates). combo also: every template x all 128 flag combinations (flags before / after append_data, two orders), six template pairs x 128, an extended and a dask component added and moved to the front x 128, every pair (thorough: triple) of ops over a 27-letter alphabet on every non-standard template; combor: two thirds of the histories on random templates, ac draws from five component classes; dcombo: every fourth case on rotating templates; vpick also: every sequence of 2 / 4 ops over a 7-letter alphabet with flag flips (after both datasets became layers / entered the collection) on six template pairs, all 128 flag combinations for every picker x template pair (8 walks of 16), random histories on random templates with flag flips; viewr: half of the scatter / histogram histories on random templates. view: one extended viewer op (add_subset / remove_subset / remove_layer / state.layers.remove / restore / second-dataset ops) at every position of every core sequence (append/remove x2 datasets, new group, remove group, add_data x2, remove_data) of length 2 (quick) / 3 (thorough); every core sequence of length 4 / 5; every sequence of length 5 / 7 over a 5-letter one-dataset alphabet; viewer class rotating by case; viewr: seeded random histories of length 4-15 / 4-40 over 2-3 datasets, up to 3 groups, with restores. vpick: the x/y attribute pickers of ScatterViewerState / HistogramViewerState read in situ after every step of every core viewer history of length 3 / 4, one extended op after every core history of length 2 / 3, 150 / 6000 random histories. combo: every sequence of 3 ops over a 25-letter core alphabet after helper.append_data + every pair over the full 39-letter alphabet after three prefixes (thorough: triples over the full alphabet, 4-sequences over 19 letters); combor: random length 4-15 / 4-40. dcombo: every sequence of length 3-4 / 4-5 over 12-15 letters for both helper classes and two initial collections. axes: every setter sequence of length 3 (thorough 4, all three coordinate kinds) on a 3-d and a 2-d reference dataset, every sequence of length 2 (thorough 4) over the full 18-letter alphabet incl. reference-data changes and layers coming and going, samples of the next length. non-trivial = the history touches both sides (e.g. add_data and a collection change).",
     partial_note="Partial for per-viewer State subclasses: 'all callback-property values of State subclasses' is covered only as far as ImageViewerState's axis attributes, the viewers' layers list and the SelectionCallbackProperty rule; other callback properties (limits, colours, ...) are not modelled.",
 )
